@@ -158,6 +158,33 @@ theorem C27_finding_initial_pause_race :
   refine ⟨_, rfl, ?_⟩
   decide
 
+/-- FINDING (C27.badnosubscription-pauses-for-good).  A publish that fails while a
+    subscription is registered and nothing else is going on — the server answers
+    BadNoSubscription (a late answer to a request it processed while it had none) — makes
+    the loop pause itself; `Client.monitor` skips exactly this error (`continue`), so no
+    reconnect and no resume follow: the loop stays paused with a registered subscription. -/
+theorem C27_finding_error_pauses_with_subscription :
+    ∃ s, run (init 1 0 0 0 0 0)
+        [.selTakePause, .subSendResume, .subRegister, .pausedTakeResume, .selDefault, .pubStart,
+         .respErr, .selfPause, .selTakePause] = some s ∧ stalled s = true ∧ s.nsubs = 1 := by
+  refine ⟨_, rfl, ?_⟩
+  decide
+
+/-- what a failing publish does when nothing else is under way (no token queued, no call
+    in progress, lock free): whatever the number of registered subscriptions, the only run
+    of the loop is self-pause → read the own token → paused, at rest, registry untouched —
+    stalled exactly when a subscription is registered. -/
+theorem C27_error_pauses (s : St) (hl : s.loop = .inflight) (hp : s.pause = 0) (hr : s.resume = 0)
+    (hm : s.mux = .free) (h1 : s.subSend = 0) (h2 : s.subLock = 0) (h3 : s.fgStart = 0) (h4 : s.fgStale = 0)
+    (h5 : s.fgStaleD = 0) (h6 : s.monPause = 0) (h7 : s.monResume = 0) :
+    ∃ s', run s [.respErr, .selfPause, .selTakePause] = some s' ∧ s'.loop = .paused ∧ atRest s' = true ∧
+      s'.nsubs = s.nsubs ∧ (stalled s' = true ↔ 0 < s.nsubs) := by
+  have hc := caps.1
+  refine ⟨{ s with loop := .paused }, ?_, rfl, ?_, rfl, ?_⟩
+  · simp [run, step, hl, hp, hc]
+  · simp [atRest, h1, h2, h3, h4, h5, h6, h7, hm, hp, hr]
+  · simp [stalled, atRest, h1, h2, h3, h4, h5, h6, h7, hm, hp, hr]
+
 /-- PARTIAL.  Once the loop has consumed the initial token, with Subscribe calls only
     (no forget, no reconnect) and no failing publish, the loop is never left paused
     while a subscription is registered — for any number of Subscribe calls and every
